@@ -145,6 +145,9 @@ def judge_case(res, exprs, k, rng, hits=None):
         seen_terms = set()
         for p in [list(range(len(types))), list(reversed(range(len(types))))] + [rng.sample(range(len(types)), len(types))]:
             traces = [CallTrace(_probe, {"a": types[i]}, types[i], types[i]) for i in p]
+            # calls that raised before returning / generators that yielded nothing leave those slots empty: an empty slot is not a type
+            traces.insert(rng.randrange(len(traces) + 1), CallTrace(_probe, {"a": types[p[0]]}, None, None))
+            traces.append(CallTrace(_probe, {"a": types[p[-1]]}, types[p[-1]], None))
             r4.count("trace_merge_judgements")
             try:
                 at, rt_, yt = shrink_traced_types(traces, k)
@@ -154,6 +157,7 @@ def judge_case(res, exprs, k, rng, hits=None):
             ts = {RT.to_rt(at["a"]), RT.to_rt(rt_), RT.to_rt(yt)}
             if len(ts) != 1:
                 r4.violation("trace-merge-differs-by-position", f"{exprs} k={k}: " + " vs ".join(sorted(RT.show(x) for x in ts)), wit)
+                t_store = next((x for x in sorted(ts, key=RT.show) if x != term and not RT.has_unknown(x)), None)  # walked for tightness below
                 break
             seen_terms |= ts
         else:
